@@ -4439,7 +4439,7 @@ class Qube(object):
     def _raise_unsupported_op(op, obj1, obj2=None):
         """Raise a TypeError or ValueError for unsupported operations."""
 
-        opstr = obj1._opstr(op)
+        opstr = Qube._opstr(obj1, op)  # obj1 might be an ndarray or a list
 
         if obj2 is None:
             raise TypeError('unsupported operand type for %s: %s'
